@@ -88,8 +88,15 @@ type RspObs struct {
 // ---- goroutine dump ----
 var goroutineHdr = regexp.MustCompile(`^goroutine (\d+) \[([^\]]*)\]:`)
 
-const createdByHandleTCP = "created by github.com/honeytrap/honeytrap/listener/canary.(*Canary).handleTCP"
-const inSocketRead = "listener/canary.Socket.Read("
+// The port handler is recognised by WHERE it was created and where it waits (package
+// listener/canary), not by the names of unexported functions: renaming handleTCP or Socket.Read
+// is a harmless rewrite and must not disturb the synchronisation of this harness.
+const createdByCanary = "created by github.com/honeytrap/honeytrap/listener/canary."
+const inCanary = "github.com/honeytrap/honeytrap/listener/canary."
+
+// blocked goroutine states of the runtime's dump in which a handler can only be woken by a frame
+// the harness injects (waiting for data in a select / on a channel / on a condition)
+var blockedStates = []string{"select", "chan receive", "sync.Cond.Wait"}
 
 var dumpBuf = make([]byte, 1<<18) // sessions of this part run one after the other
 
@@ -112,11 +119,22 @@ func handlerGoroutines() map[int]gstate {
 	out := map[int]gstate{}
 	for _, blk := range strings.Split(string(buf), "\n\n") {
 		m := goroutineHdr.FindStringSubmatch(blk)
-		if m == nil || !strings.Contains(blk, createdByHandleTCP) {
+		if m == nil || !strings.Contains(blk, createdByCanary) {
 			continue
 		}
 		id, _ := strconv.Atoi(m[1])
-		out[id] = gstate{parked: strings.HasPrefix(m[2], "select") && strings.Contains(blk, inSocketRead)}
+		blocked := false
+		for _, st := range blockedStates {
+			if strings.HasPrefix(m[2], st) {
+				blocked = true
+			}
+		}
+		// the frames above "created by": at least one inside the canary package (the read it waits in)
+		body := blk
+		if i := strings.Index(blk, "created by "); i >= 0 {
+			body = blk[:i]
+		}
+		out[id] = gstate{parked: blocked && strings.Contains(body, inCanary)}
 	}
 	return out
 }
